@@ -20,9 +20,18 @@ class VClock:
 
     def __init__(self, now=T0):
         self.now = now
+        # seconds the clock advances after every reading (0: it moves only
+        # when the harness says so); a harness sets this to let the clock
+        # tick in the middle of an operation
+        self.auto = 0.0
 
     def time(self):
-        return self.now
+        return self.read()
+
+    def read(self):
+        t = self.now
+        self.now += self.auto
+        return t
 
     def tick(self, d=1.0):
         self.now += d
@@ -35,17 +44,18 @@ class TimeProxy:
         self._clock = clock
 
     def time(self):
-        return self._clock.now
+        return self._clock.read()
 
     def sleep(self, s):
         # nothing in the explored code should sleep; make it visible
         self._clock.now += s
 
     def gmtime(self, secs=None):
-        return _real_time.gmtime(self._clock.now if secs is None else secs)
+        return _real_time.gmtime(self._clock.read() if secs is None
+                                 else secs)
 
     def localtime(self, secs=None):
-        return _real_time.localtime(self._clock.now if secs is None
+        return _real_time.localtime(self._clock.read() if secs is None
                                     else secs)
 
     def __getattr__(self, name):
@@ -107,6 +117,7 @@ def install():
 def reset_globals():
     """Reset process-global caches that would couple executions."""
     CLOCK.now = T0
+    CLOCK.auto = 0.0
     RANDOM.script = []
     RANDOM.fallback = 1 << 40
     RANDOM.calls = 0
